@@ -54,15 +54,15 @@ type Type struct {
 var Basics = []string{"bool", "int", "int8", "int16", "int32", "int64", "uint", "uint8", "uint16", "uint32", "uint64", "uintptr",
 	"float32", "float64", "complex64", "complex128", "string", "byte", "rune"}
 
-func B(name string) *Type           { return &Type{K: KBasic, Basic: name} }
-func Ptr(e *Type) *Type             { return &Type{K: KPtr, Elem: e} }
-func Slice(e *Type) *Type           { return &Type{K: KSlice, Elem: e} }
-func Array(n int, e *Type) *Type    { return &Type{K: KArray, N: n, Elem: e} }
-func Map(k, e *Type) *Type          { return &Type{K: KMap, Key: k, Elem: e} }
-func Chan(e *Type) *Type            { return &Type{K: KChan, Elem: e} }
-func StructOf(fs ...Field) *Type    { return &Type{K: KStruct, Fields: fs} }
-func F(name string, t *Type) Field  { return Field{Name: name, T: t} }
-func Emb(t *Type) Field             { return Field{Name: "", T: t, Embedded: true} }
+func B(name string) *Type          { return &Type{K: KBasic, Basic: name} }
+func Ptr(e *Type) *Type            { return &Type{K: KPtr, Elem: e} }
+func Slice(e *Type) *Type          { return &Type{K: KSlice, Elem: e} }
+func Array(n int, e *Type) *Type   { return &Type{K: KArray, N: n, Elem: e} }
+func Map(k, e *Type) *Type         { return &Type{K: KMap, Key: k, Elem: e} }
+func Chan(e *Type) *Type           { return &Type{K: KChan, Elem: e} }
+func StructOf(fs ...Field) *Type   { return &Type{K: KStruct, Fields: fs} }
+func F(name string, t *Type) Field { return Field{Name: name, T: t} }
+func Emb(t *Type) Field            { return Field{Name: "", T: t, Embedded: true} }
 func Named(pkg, name string, u *Type) *Type {
 	return &Type{K: KNamed, Pkg: pkg, Name: name, Under: u}
 }
